@@ -47,6 +47,26 @@ func failoverPolicy(typeName string) pw.Policy {
 		Role:     BaseRole,
 		MaxDepth: 4,
 		Consistent: func(f *pw.FactView) bool {
+			// axiom (a): a backend Read that fails returns no value (nil for nil-able value types).
+			for _, ev := range f.Events() {
+				if ev.Kind == pw.EvCall && ev.Role == "BackendRead" && len(ev.Results) == 2 {
+					en, ek := f.Nil(ev.Results[1])
+					vn, vk := f.Nil(ev.Results[0])
+					if ek && !en && vk && !vn {
+						return false
+					}
+				}
+			}
+			// axiom (c): the failure cache only ever holds non-nil errors (R05.3 checks the writer side).
+			for _, ev := range f.Events() {
+				if ev.Kind == pw.EvCall && ev.Role == "ErrorsRead" && len(ev.Results) == 2 {
+					en, ek := f.Nil(ev.Results[1])
+					vn, vk := f.Nil(ev.Results[0])
+					if ek && en && vk && vn {
+						return false
+					}
+				}
+			}
 			// axiom (b): an error cannot both carry an expired item and be ErrNotFound.
 			asTrue := map[int]bool{}
 			for _, pv := range f.PureCalls() {
@@ -292,7 +312,7 @@ func (c *Ctx) c01Sibling(fo *FO) {
 			d, t := c.pathDetail(fo, p, "keyLocks lookup without holding lock")
 			r.Bad("R01.2", cons, "lookup-unlocked", c.Pos(cl.lookup.Pos), d, t)
 		}
-		if !stringOf(cl.lookup.Key, fo.Key) {
+		if !stringOfContent(p.Events, cl.lookup.Key, fo.Key) {
 			d, t := c.pathDetail(fo, p, "keyLocks lookup is not keyed by string(key): "+cl.lookup.Key.String())
 			r.Bad("R01.2", cons, "lookup-key", c.Pos(cl.lookup.Pos), d, t)
 		}
@@ -319,7 +339,7 @@ func (c *Ctx) c01Sibling(fo *FO) {
 					r.Bad("R01.2", cons, "split-election", c.Pos(ev.Pos), d, t)
 				}
 			}
-			if !stringOf(cl.insert.Key, fo.Key) {
+			if !stringOfContent(p.Events, cl.insert.Key, fo.Key) {
 				d, t := c.pathDetail(fo, p, "keyLocks insert is not keyed by string(key)")
 				r.Bad("R01.2", cons, "insert-key", c.Pos(cl.insert.Pos), d, t)
 			}
@@ -406,10 +426,10 @@ func (c *Ctx) c01Sibling(fo *FO) {
 			}
 		}
 		// R01.5: shape of each release
-		c.checkReleaseShape(fo, p, p.Events, ls, cl, cons)
+		c.checkReleaseShape(fo, p, p.Events, p.Events, ls, cl, cons)
 		for _, g := range gos {
 			for _, sp := range g.Sub {
-				c.checkReleaseShape(fo, p, sp.Events, Locksets(sp.Events, nil), cl, cons)
+				c.checkReleaseShape(fo, p, sp.Events, append(append([]*pw.Event{}, p.Events...), sp.Events...), Locksets(sp.Events, nil), cl, cons)
 			}
 		}
 	}
@@ -439,7 +459,7 @@ func hasViolation(obls []*coreObl, rule, cons string) bool {
 	return false
 }
 
-func (c *Ctx) checkReleaseShape(fo *FO, p *pw.Path, evs []*pw.Event, ls []Held, cl *foClass, cons string) {
+func (c *Ctx) checkReleaseShape(fo *FO, p *pw.Path, evs, all []*pw.Event, ls []Held, cl *foClass, cons string) {
 	r := c.R
 	for i, ev := range evs {
 		if !isRelease(ev) {
@@ -449,7 +469,7 @@ func (c *Ctx) checkReleaseShape(fo *FO, p *pw.Path, evs []*pw.Event, ls []Held, 
 			d, t := c.pathDetail(fo, p, "key lock entry deleted without holding lock")
 			r.Bad("R01.5", cons, "release-unlocked", c.Pos(ev.Pos), d, t)
 		}
-		if !stringOf(ev.Key, fo.Key) {
+		if !stringOfContent(all, ev.Key, fo.Key) {
 			d, t := c.pathDetail(fo, p, "key lock release is not keyed by string(key)")
 			r.Bad("R01.5", cons, "release-key", c.Pos(ev.Pos), d, t)
 		}
